@@ -328,6 +328,22 @@ pub fn i6_check(w: &mut World) {
     let any_never = w.ch.iter().any(|c| is_leaf(c) && c.never);
     let mut v: Vec<(Vec<&'static str>, String)> = vec![];
     let mut blocked_legit = false;
+    // a combinator that is stuck although its children made the progress that permits it to continue also fails
+    // to deliver what its own property promises (resolve / yield / end): attribute to the owning family as well
+    let owner_prop = |w: &World, i: Cid| -> Option<&'static str> {
+        match w.ch[i].parent {
+            Some((p, _)) if w.ch[p].fam != Fam::Co => Some(w.ch[p].fam.prop()),
+            _ => None,
+        }
+    };
+    let with_owner = |w: &World, i: Cid, mut props: Vec<&'static str>| -> Vec<&'static str> {
+        if let Some(p) = owner_prop(w, i) {
+            if !props.contains(&p) {
+                props.push(p);
+            }
+        }
+        props
+    };
     for i in 0..w.ch.len() {
         let c = &w.ch[i];
         if !is_leaf(c) || !c.created || c.dropped > 0 {
@@ -342,13 +358,13 @@ pub fn i6_check(w: &mut World) {
                 let at_never = c.pc > 0 && matches!(c.script.get(c.pc - 1), Some(Step::PendNever) | None) && !c.always_ready;
                 if c.latest_woken || c.later_outstanding {
                     let props: Vec<&'static str> = if any_never && !c.never { vec!["C01", "C20"] } else { vec!["C01"] };
-                    v.push((props, format!("stuck: child {i} was woken after its last poll but is never polled again; the combinator is Pending with no wake-up outstanding")));
+                    v.push((with_owner(w, i, props), format!("stuck: child {i} was woken after its last poll but is never polled again; the combinator is Pending with no wake-up outstanding")));
                 } else if at_never {
                     blocked_legit = true;
                 } else {
                     // Pending without a registered wake: only happens for PendSelf whose wake was consumed
                     let props: Vec<&'static str> = if any_never && !c.never { vec!["C01", "C20"] } else { vec!["C01"] };
-                    v.push((props, format!("stuck: child {i} self-woke during its last poll and was not polled again")));
+                    v.push((with_owner(w, i, props), format!("stuck: child {i} self-woke during its last poll and was not polled again")));
                 }
             }
             Last::Item if w.root.is_none() && i == 0 => {
@@ -357,10 +373,10 @@ pub fn i6_check(w: &mut World) {
             }
             Last::Item => {
                 let props: Vec<&'static str> = if any_never { vec!["C01", "C20"] } else { vec!["C01"] };
-                v.push((props, format!("stuck: stream child {i} yielded an item and is never polled again although the combinator is Pending")));
+                v.push((with_owner(w, i, props), format!("stuck: stream child {i} yielded an item and is never polled again although the combinator is Pending")));
             }
             Last::Never => {
-                v.push((vec!["C01", "C20"], format!("stuck: child {i} was never polled although the combinator is Pending with no wake-up outstanding")));
+                v.push((with_owner(w, i, vec!["C01", "C20"]), format!("stuck: child {i} was never polled although the combinator is Pending with no wake-up outstanding")));
             }
         }
     }
